@@ -65,7 +65,7 @@ func q(s string) string { return `"` + strings.ReplaceAll(s, `"`, `""`) + `"` }
 // channel operation, call, handler call, return or loop exit); such commands are dropped, which
 // keeps the number of paths enumerated in Coq small without changing any verdict
 func silent(c string) bool {
-	for _, w := range []string{"Acq ", "Rel ", "DeferRel ", "Access ", "Send ", "Recv ", "Call ", "CallHandler", "Return", "LoopExit", "Irregular ", "Select ", "SelDefault", "CloseCh ", "GoStmt ", "Ext \"json."} {
+	for _, w := range []string{"Acq ", "Rel ", "DeferRel ", "Access ", "Send ", "Recv ", "Call ", "CallHandler", "Return", "LoopExit", "Irregular ", "Select ", "SelDefault", "CloseCh ", "GoStmt ", "Ext \"json.", "Ext \"m.client.Watch"} {
 		if strings.Contains(c, w) {
 			return false
 		}
@@ -193,6 +193,9 @@ func (g *gen) call(c *ast.CallExpr, deferred bool) []string {
 	case strings.HasPrefix(fn, "klog.") || strings.HasPrefix(fn, "fmt.") || strings.HasPrefix(fn, "time.") || strings.HasPrefix(fn, "strings.") ||
 		strings.HasPrefix(fn, "os.") || strings.HasPrefix(fn, "debug.") || strings.HasPrefix(fn, "xdsresource.") ||
 		strings.HasPrefix(fn, "context.") || strings.HasPrefix(fn, "backoff.") || strings.HasPrefix(fn, "auth.") || strings.HasPrefix(fn, "atomic."):
+	case fn == "m.client.Watch":
+		// the manager subscribes / unsubscribes: must be atomic with the cache and notifier change that causes it
+		out = append(out, "Ext "+q(fn), "Call "+q(last))
 	case known[last] && (strings.HasPrefix(fn, "m.") || strings.HasPrefix(fn, "c.") || strings.HasPrefix(fn, "r.") || strings.HasPrefix(fn, "rc.") || strings.HasPrefix(fn, "cb.") || strings.HasPrefix(fn, "l.") || !strings.Contains(fn, ".")):
 		out = append(out, "Call "+q(last))
 	case strings.HasSuffix(fn, ".notify"):
